@@ -40,6 +40,8 @@ def r1_step_wrappers(ctx, cfg='A'):
                     a0, a1 = peel(e[2][0]), peel(e[2][1])
                     if (a0[0] == 'field' and a0[2] == 'limit') or (a1[0] == 'field' and a1[2] == 'limit'):
                         seq.append(('swap', e))
+                elif e[0] == 'c' and e[1].name == 'std::mem::replace' and peel(e[2][0])[0] == 'field' and peel(e[2][0])[2] == 'limit':
+                    seq.append(('swap', e))
                 elif e[0] == 'c' and e[1].name == RT + '::dispatch_all':
                     seq.append(('run', e))
                 elif e[0] == 'w' and e[2] == 'limit':
@@ -176,7 +178,7 @@ def r3_paused_state(ctx, cfg='A'):
                   'a dispatch_event call that dispatches nothing changes neither the clock nor the dispatch counter (a paused runtime reports the last dispatched event)',
                   f.where_path(path), {'clock_written': clock, 'counter_written': counter})
         ret = path_ret(f, path)
-        ctx.check(ret == ('int', 1), 'stop-signalled', 'a dispatch_event call that dispatches nothing tells dispatch_all to stop', f.where_path(path), show(ret) if ret else None)
+        ctx.check(path_truth(f, path, decs, ret) is True, 'stop-signalled', 'a dispatch_event call that dispatches nothing tells dispatch_all to stop', f.where_path(path), show(ret) if ret else None)
     ctx.floor('non-dispatching paths of dispatch_event', n, 2)
 
 
